@@ -11,5 +11,5 @@ if commit != '-':
     what = f"fixed: property={prop} {commit} {what}"
 e["what"] = what
 d["findings"].append(e)
-out = '{\n "_comment": ' + json.dumps(d["_comment"]) + ',\n "findings": [\n' + ',\n'.join('  ' + json.dumps(f) for f in d["findings"]) + '\n ]\n}\n'
+out = json.dumps(d, indent=1, ensure_ascii=False) + '\n'
 open(p, 'w').write(out)
